@@ -39,6 +39,27 @@ fn bases(seed: u64, tier: Tier) -> Vec<Vec<Chunk>> {
         Chunk::C { class: 3, props: (0, 0, 0), prog: vec![Sym::L(5), Sym::M(1, 20)] },
     ]);
     v.push(vec![Chunk::U { reset: true, data: vec![0x55] }]);
+    // chunks producing exactly 65536 and 131072 bytes (16-bit size field 0xFFFF, control-byte size bits 0 / 1)
+    for total in [65536usize, 131072] {
+        let mut p = vec![Sym::L(0x37), Sym::L(0x38), Sym::L(0x39)];
+        let mut produced = 3usize;
+        while produced + 273 <= total {
+            p.push(Sym::M(3, 273));
+            produced += 273;
+        }
+        while produced < total {
+            let l = (total - produced).min(273);
+            if l >= 2 {
+                p.push(Sym::M(3, l as u32));
+                produced += l;
+            } else {
+                p.push(Sym::L(0x3A));
+                produced += 1;
+            }
+        }
+        v.push(vec![c3((3, 0, 2), p.clone())]);
+        v.push(vec![Chunk::U { reset: true, data: b"ab".to_vec() }, Chunk::C { class: 2, props: (3, 0, 2), prog: p }]);
+    }
     // a compressed chunk that resets the dictionary in mid-stream, after a few bytes of earlier output
     v.push(vec![Chunk::U { reset: true, data: vec![0x55] }, c3((3, 0, 2), (0..30u32).map(|i| Sym::L((i * 37 + 1) as u8)).chain([Sym::M(7, 9)]).collect())]);
     v.push(vec![Chunk::U { reset: true, data: b"abcde".to_vec() }, c3((0, 0, 0), (0..30u32).map(|i| Sym::L((i * 37 + 1) as u8)).chain([Sym::M(7, 9)]).collect()), Chunk::U { reset: false, data: b"xy".to_vec() }]);
@@ -101,7 +122,7 @@ fn bases(seed: u64, tier: Tier) -> Vec<Vec<Chunk>> {
 
 pub fn run(tier: Tier) -> i32 {
     let ctx = Ctx::new("C17", "exploration", tier);
-    ctx.set_rule("E5: for each well-formed base chunk sequence (incl. chunks with heavily trained probabilities where a symbol costs no input) and each chunk position, the complete mutation domains: control byte := every value 0x03..0x7F; property byte := every value 225..255 and every value < 225 with lc+lp > 4; declared compressed size := true-k (k=1..5) and true+k (k=1..3); declared uncompressed size := true+-k (k=1..3) and true +- (bytes produced by the earlier chunks); uncompressed chunk body shortened by every amount; truncation at every byte. A mutant is submitted only if the strict reference LZMA2 decoder (liblzma's rules) calls it invalid for a reason C17 lists; lzma2_decompress must return Err. distinct_nontrivial = submitted mutants.");
+    ctx.set_rule("E5: for each well-formed base chunk sequence (incl. chunks with heavily trained probabilities where a symbol costs no input) and each chunk position, the complete mutation domains: control byte := every value 0x03..0x7F; property byte := every value 225..255 and every value < 225 with lc+lp > 4; declared compressed size := true-k (k=1..5) and true+k (k=1..3); declared uncompressed size := true+-k (k=1..3), true +- 65536 and true +- (bytes produced by the earlier chunks); uncompressed chunk body shortened by every amount; truncation at every byte. A mutant is submitted only if the strict reference LZMA2 decoder (liblzma's rules) calls it invalid for a reason C17 lists; lzma2_decompress must return Err. distinct_nontrivial = submitted mutants.");
     ctx.assume("strict reference LZMA2 decoder bound to liblzma on well-formed streams by `lzmc bind`; xz_decompress shares the LZMA2 code path and is covered on the same framing through C02/C06");
     let bs = bases(ctx.seed, tier);
     let t0 = Instant::now();
@@ -158,7 +179,7 @@ pub fn run(tier: Tier) -> i32 {
                 // +-k, and +- the number of bytes the earlier chunks produced (what a decoder that mixes up "bytes of
                 // this chunk" and "bytes in the dictionary" would be off by)
                 let before: i64 = w.layout[..ci].iter().map(|x| x.unpacked as i64).sum();
-                let mut ds = vec![-3i64, -2, -1, 1, 2, 3];
+                let mut ds = vec![-3i64, -2, -1, 1, 2, 3, -65536, 65536];
                 if before > 3 {
                     ds.push(-before);
                     ds.push(before);
